@@ -129,6 +129,7 @@ class RegexFacade:
     def should_time_out(self, pattern, subject):
         """Fault injection: for an adversarial (pattern, subject) pair the stub engine behaves as the real one does when
         it honours its timeout - it raises TimeoutError once the allowance is spent."""
+        pattern = getattr(pattern, 'pattern', pattern)
         return self.inject_timeouts and isinstance(subject, str) and isinstance(pattern, str) and \
             len(subject) > self.subject_cap and any(m in pattern for m in ('+)+', '*)*', ')+$', '+)*', '){1,50}', '|a)*', '|aa)+', ')+(', '(.*a)'))
 
@@ -149,6 +150,10 @@ def _partial_then_timeout(it):
 class _PatternProxy:
     def __init__(self, pat):
         self.__dict__['_pat'] = pat
+
+    @property
+    def __class__(self):            # isinstance(proxy, regex.Pattern) holds, as for the object it stands for
+        return type(self._pat)
 
     def __getattr__(self, name):
         real = getattr(self._pat, name)
@@ -249,8 +254,11 @@ def _install_regex():
         REGEX.real[name] = real
 
         def entry(*a, _real=real, _name=name, **k):
+            if a and type(a[0]) is _PatternProxy:
+                a = (a[0]._pat,) + tuple(a[1:])      # a compiled pattern handed in by the host
             if REGEX.mode == 'virtual':
-                plen = len(a[0]) if a and isinstance(a[0], str) else 0
+                ptxt = getattr(a[0], 'pattern', a[0]) if a else ''
+                plen = len(ptxt) if isinstance(ptxt, str) else 0
                 subj = a[2] if _name in ('sub', 'subn', 'subf', 'subfn') and len(a) > 2 else (a[1] if len(a) > 1 else k.get('string', ''))
                 REGEX.charge(_name, k.get('timeout'), plen, len(subj) if isinstance(subj, str) else 0)
                 k = dict(k)
@@ -596,6 +604,93 @@ def _install_clock():
 _installed = False
 
 
+# --------------------------------------------------------------------------- S9 locks
+class SimDeadlock(BaseException):
+    """A blocking acquire of a lock that is held and that nobody in the simulation can release any more: the real
+    program would hang here for ever. Not an Exception on purpose (library code must not be able to swallow it)."""
+
+
+class LockSeam:
+    def __init__(self):
+        self.created = 0
+        self.deadlocks = 0
+        self.all = []           # locks live as long as the module that created them: a handful per process
+
+    def reset(self):
+        """Before every run: no lock stays held from an earlier run (one seed = one repeatable execution)."""
+        self.deadlocks = 0
+        for l in self.all:
+            l._owner = None
+            l._count = 0
+
+
+LOCKS = LockSeam()
+
+
+class SimLock:
+    """threading.Lock / RLock as created by smartquery code. The simulation has one runnable party at a time (host
+    callbacks on other threads are joined synchronously), so a blocking acquire of a held lock can never succeed."""
+
+    def __init__(self, reentrant=False):
+        self._reentrant = reentrant
+        self._owner = None
+        self._count = 0
+        LOCKS.created += 1
+        if len(LOCKS.all) < 10000:
+            LOCKS.all.append(self)
+
+    def acquire(self, blocking=True, timeout=-1):
+        import threading as _th
+        me = _th.get_ident()
+        if self._count == 0 or (self._reentrant and self._owner == me):
+            self._owner = me
+            self._count += 1
+            return True
+        if not blocking:
+            return False
+        if timeout is not None and timeout >= 0:
+            VCLOCK.advance(float(timeout))
+            return False
+        LOCKS.deadlocks += 1
+        raise SimDeadlock('blocking acquire of a lock that is still held (it was not released on an earlier path, e.g. a '
+                          'call that failed): the call would block for ever')
+
+    def release(self):
+        if self._count == 0:
+            raise RuntimeError('release unlocked lock')
+        self._count -= 1
+        if self._count == 0:
+            self._owner = None
+
+    def locked(self):
+        return self._count > 0
+
+    def __enter__(self):
+        self.acquire()
+        return True
+
+    def __exit__(self, *exc):
+        self.release()
+        return False
+
+
+def _install_locks():
+    import threading as _th
+    real = {'Lock': _th.Lock, 'RLock': _th.RLock}
+
+    def _from_package():
+        fn = sys._getframe(2).f_code.co_filename.replace(os.sep, '/')
+        return '/smartquery/' in fn
+
+    def Lock():
+        return SimLock(False) if _from_package() else real['Lock']()
+
+    def RLock(*a, **k):
+        return SimLock(True) if _from_package() else real['RLock'](*a, **k)
+    _th.Lock = Lock
+    _th.RLock = RLock
+
+
 def install_before_import():
     global _installed
     if _installed:
@@ -604,4 +699,5 @@ def install_before_import():
     _install_entropy()
     _install_regex()
     _install_clock()
+    _install_locks()
     _installed = True
